@@ -53,13 +53,15 @@ def shards(tier, seed):
         for variant in range(4):
             out.append({"part": "delayed", "q": q, "variant": variant, "seed": seed, "analytic": q == 2 or (tier == "thorough")})
     out.append({"part": "units", "seed": seed})
+    for q in (1, 2, 3):
+        out.append({"part": "dtypes", "q": q, "seed": seed})
     out.sort(key=lambda s: -(s.get("q", 1) ** 3 * (4 if s.get("analytic") else 1)))
     return out
 
 
 def run_shard(shard):
     logging.disable(logging.CRITICAL)
-    return {"static": _static, "mix": _mix, "siso": _siso, "delayed": _delayed, "units": _units}[shard["part"]](shard)
+    return {"static": _static, "mix": _mix, "siso": _siso, "delayed": _delayed, "units": _units, "dtypes": _dtypes}[shard["part"]](shard)
 
 
 def replay(case):
@@ -297,6 +299,44 @@ def _delayed(shard):
         if perm != tuple(range(q)):
             acc.equal(f"delayed/permutation/q={q}", num([U[i] for i in perm], y, FS, **KW)[1], results["numeric"], s00, K, q, f"inputs reordered {perm}")
     acc.out["samples"].append({"q": q, "variant": v, "delays": list(dl[:q]), "resid": np.asarray(results["numeric"])[-3:].tolist()})
+    return acc.out
+
+
+def _dtypes(shard):
+    """The same numbers handed over in other containers / dtypes (integer ADC counts, float32, lists, read-only arrays) give the
+    same residual as float64 arrays: exact combination (zero residual), plus an independent non-integer part, q = 1 also vs SISO."""
+    q, seed = shard["q"], shard["seed"]
+    num, anl, siso = solvers()
+    K, f = plan_K()
+    acc = Acc(shard)
+    Uf = [np.round(1000.0 * u) for u in inputs(q, seed)]          # integer-valued records
+    a = [0.37, -1.25, 2.5][:q]
+    for kind in ("exact", "plus"):
+        y = sum(ai * ui for ai, ui in zip(a, Uf)) + (0.0 if kind == "exact" else 700.0 * records.get("chirp", N, seed))
+        s00 = S00(y)
+        _, r_ref = num([u.copy() for u in Uf], y.copy(), FS, **KW)
+        forms = {"int64": [u.astype(np.int64) for u in Uf], "int32": [u.astype(np.int32) for u in Uf], "float32": [u.astype(np.float32) for u in Uf],
+                 "list": [u.tolist() for u in Uf], "mixed": [u.astype(np.int64) if i % 2 == 0 else u.copy() for i, u in enumerate(Uf)]}
+        ro = [u.copy() for u in Uf]
+        for u in ro:
+            u.setflags(write=False)
+        forms["readonly"] = ro
+        for name, U in forms.items():
+            for sname, solver in (("numeric", num), ("analytic", anl)) if q <= 2 else (("numeric", num),):
+                try:
+                    _, r = solver(U, y.copy(), FS, **KW)
+                except Exception as e:  # noqa: BLE001
+                    acc.out["evals"] += 1
+                    acc.add(f"dtypes/raises/{name}/{sname}", f"inputs given as {name} raised {type(e).__name__}: {e}")
+                    continue
+                acc.equal(f"dtypes/{kind}/{name}/{sname}/q={q}", r, r_ref, s00, K, q, f"inputs given as {name} ({sname} solver) vs the same numbers as float64 arrays")
+            if q == 1:
+                try:
+                    _, r = siso(U[0], y.copy(), FS, **KW)
+                    acc.equal(f"dtypes/{kind}/{name}/siso", r, r_ref, s00, K, q, f"SISO with the input given as {name} vs MISO on float64")
+                except Exception as e:  # noqa: BLE001
+                    acc.add(f"dtypes/raises/{name}/siso", f"input given as {name} raised {type(e).__name__}: {e}")
+    acc.out["samples"].append({"dtypes": ["int64", "int32", "float32", "list", "mixed", "readonly"], "q": q})
     return acc.out
 
 
